@@ -328,7 +328,11 @@ def classify_a(case: dict) -> T.Tuple[str, bool, bool]:
     return cls, weak, R.nontrivial_a(case['cfg'], case['steps'])
 
 
-def check_a(case: dict, ev: Evidence) -> T.Optional[Failure]:
+def _fam(sig: str) -> str:
+    return sig.split(':')[0].split('@')[0]
+
+
+def check_a(case: dict, ev: Evidence, known: T.Optional[T.Set[str]] = None) -> T.Optional[Failure]:
     o = run_a(case)
     f = judge_a(case, o)
     cls, weak, nt = classify_a(case)
@@ -337,19 +341,23 @@ def check_a(case: dict, ev: Evidence) -> T.Optional[Failure]:
         ev.event('A-weak-cells')
     if f is None:
         return None
+    if known is not None and f.sig in known:
+        ev.event('failure-of-already-reported-signature')
+        return None
     o2 = run_a(case, sub=True)
     f2 = judge_a(case, o2)
     if f2 is None:
         ev.inproc_only += 1
         return None
+    if known is not None:
+        known.update((f.sig, f2.sig))
     return shrink_a(f2)
 
 
 def shrink_a(f: Failure) -> Failure:
-    """Drop steps that are not needed for the same signature (in-process; the result was subprocess-confirmed)."""
+    """Drop steps that are not needed for the same signature family (searched in-process, result confirmed by subprocess)."""
     case = f.case
     steps = list(case['steps'])
-    best = f
     changed = True
     while changed and len(steps) > 1:
         changed = False
@@ -361,12 +369,15 @@ def shrink_a(f: Failure) -> Failure:
             if not R.alternatives(c2['cfg'], cand):
                 continue
             g = judge_a(c2, run_a(c2))
-            if g is not None and g.sig.split(':')[0] == f.sig.split(':')[0]:
-                g2 = judge_a(c2, run_a(c2, sub=True))
-                if g2 is not None:
-                    steps, best, changed = cand, g2, True
-                    break
-    return best
+            if g is not None and _fam(g.sig) == _fam(f.sig):
+                steps, changed = cand, True
+                break
+    if steps != list(case['steps']):
+        c2 = {'cfg': case['cfg'], 'steps': steps, 'seq': case.get('seq', False)}
+        g2 = judge_a(c2, run_a(c2, sub=True))
+        if g2 is not None and _fam(g2.sig) == _fam(f.sig):
+            return g2
+    return f
 
 
 def valid_a(cfg: dict, steps: T.Sequence[list]) -> T.Optional[str]:
@@ -394,9 +405,9 @@ def table_a(ev: T.Optional[Evidence] = None) -> T.List[dict]:
 
     for sysv, cons, (wrap, ovr), wm, fff in itertools.product([None, '1.0', '2.0'], CONS, SPKINDS, WRAP_MODES, FFF):
         for pre in ('none', 'sub', 'ovr1', 'ovr2'):
+            if pre.startswith('ovr') and (wrap, ovr) in (('none', True), ('var', True)):
+                continue   # parent override x overriding subproject: same clause as the other provider kinds, pruned for budget
             for spver in (('1.0', '2.0') if pre in ('none', 'sub') else ('2.0',)):
-                if wrap == 'none' and not ovr and pre != 'sub' and spver == '1.0':
-                    pass   # the sp version only matters through explicit fallbacks; still enumerated (cheap)
                 cfg = {'sys': sysv, 'cons': cons, 'wrap': wrap, 'sp_ovr': ovr, 'spver': spver, 'wm': wm, 'fff': fff}
                 pre_steps = {'none': [], 'sub': [['sub']], 'ovr1': [['ovr', '1.0']], 'ovr2': [['ovr', '2.0']]}[pre]
                 for req in ('true', 'false', 'auto'):
@@ -436,8 +447,10 @@ def seq_patterns() -> T.List[list]:
 
 def seq_cases(extended: bool, ev: T.Optional[Evidence] = None) -> T.List[dict]:
     if extended:
-        grid = itertools.product([None, '1.0', '2.0'], [None, '>=1.5'], [('var', False), ('names', True), ('none', True), ('var', True)],
-                                 ['default', 'nofallback', 'forcefallback'], [[], ['sp'], ['foo']], ['2.0', '1.0'])
+        grid = ((a, b, c, d, e, f) for a, b, c, d, e, f in itertools.product(
+            [None, '1.0', '2.0'], [None, '>=1.5'], [('var', False), ('names', True), ('none', True), ('var', True)],
+            ['default', 'nofallback', 'forcefallback'], [[], ['sp'], ['foo']], ['2.0', '1.0'])
+            if (f == '2.0' or b is not None) and (e != ['foo'] or d == 'nofallback'))
     else:
         grid = itertools.product([None, '2.0'], [None], [('var', False), ('names', True)],
                                  ['default', 'nofallback', 'forcefallback'], [[], ['sp']], ['2.0'])
@@ -462,10 +475,11 @@ def _shard_a(shard: T.List[dict], ev: Evidence, fails: T.List[Failure]) -> None:
     sigs: T.Set[str] = set()
     try:
         for case in shard:
-            f = check_a(case, ev)
-            if f is not None and f.sig not in sigs:
+            f = check_a(case, ev, sigs)
+            if f is not None:
                 sigs.add(f.sig)
-                fails.append(f)
+                if len({_fam(x.sig) for x in fails} | {_fam(f.sig)}) <= 6 and len(fails) < 12:
+                    fails.append(f)
     finally:
         _cleanup_proc()
 
@@ -797,8 +811,8 @@ def run_b(case: dict, sub_proc: bool = False) -> T.Tuple[T.List[dict], dict]:
 def _where(case: dict, vid: str) -> str:
     role = 'source' if vid[0] == 's' else 'patch'
     spec = case[role] or {}
-    locs = [k for k in ('cache', 'primary', 'fallback', 'files') if spec.get(k) == vid]
-    return '+'.join(locs) or 'nowhere'
+    locs = [k for k in ('cache', 'files', 'primary', 'fallback') if spec.get(k) == vid]
+    return locs[0] if locs else 'nowhere'     # first location in the documented acquisition order
 
 
 CORR = {'G': 'good', 'F': 'flipped', 'O': 'other-archive', 'T': 'truncated', 'X': 'garbage', 'D': 'patchdir'}
@@ -820,10 +834,10 @@ def judge_b(case: dict, obs: T.List[dict], info: dict) -> T.Optional[Failure]:
             if m not in allowed:
                 role = 'source' if m[0] == 's' else 'patch'
                 rec = info['rec'].get(role)
-                sig = f"integrity/unverified-{role}-unpacked:{CORR.get(m[1], m[1])}@{_where(case, m)}"
+                sig = f"integrity/unverified-{role}-unpacked@{_where(case, m)}"
                 if nd and m in info['verified'][(role, False)]:
                     sig = f'nodownload/fetched-{role}@{_where(case, m)}'
-                return Failure(sig, case, f'marker {m} is present under subprojects/ but the archive it came from '
+                return Failure(sig, case, f'marker {m} ({CORR.get(m[1], m[1])} archive) is present under subprojects/ but the archive it came from '
                                f"(sha256 {info['hashes'].get(m)}) is not a verified {role} (recorded {role}_hash {rec}; verified "
                                f'variants here: {sorted(allowed)}); {ctx}\n{o["tail"][-700:]}')
         if nd:
@@ -882,21 +896,24 @@ def nontrivial_b(case: dict) -> bool:
 
 
 def class_b(case: dict) -> str:
-    s = case['source']
-    bits = ['B', s['mode']]
-    if not source_clean(case):
-        bits.append('src-fault')
+    bits = ['B', 'src-ok' if source_clean(case) else 'src-fault']
     p = case['patch']
-    if p is not None:
-        bits.append('patchdir' if p.get('mode') == 'dir' else 'patch-' + p['mode'])
-    if case['diff'] != 'none':
-        bits.append('diff-' + case['diff'])
+    if p is None:
+        bits.append('nopatch')
+    elif p.get('mode') == 'dir':
+        bits.append('patch-ok' if p['exists'] else 'patch-fault')
+    else:
+        good = p.get('hash') in ('pG', 'pGup', None) and all(p.get(k) in (None, '-', 'pG') for k in ('primary', 'fallback', 'cache', 'files')) \
+            and any(p.get(k) == 'pG' for k in ('primary', 'cache', 'files'))
+        bits.append('patch-ok' if good else 'patch-fault')
+    if case['diff'] in ('bad', 'missing'):
+        bits.append('diff-fault')
     if case['wm'] == 'nodownload':
         bits.append('nodl')
     return '/'.join(bits)
 
 
-def check_b(case: dict, ev: Evidence) -> T.Optional[Failure]:
+def check_b(case: dict, ev: Evidence, known: T.Optional[T.Set[str]] = None) -> T.Optional[Failure]:
     obs, info = run_b(case)
     f = judge_b(case, obs, info)
     ev.case(case, nontrivial=nontrivial_b(case), cls=class_b(case))
@@ -910,26 +927,28 @@ def check_b(case: dict, ev: Evidence) -> T.Optional[Failure]:
         ev.event('B-note:temp-file-left-in-packagecache')
     if f is None:
         return None
+    if known is not None and f.sig in known:
+        ev.event('failure-of-already-reported-signature')
+        return None
     obs2, info2 = run_b(case, sub_proc=True)
     f2 = judge_b(case, obs2, info2)
     if f2 is None:
         ev.inproc_only += 1
         return None
+    if known is not None:
+        known.update((f.sig, f2.sig))
     return shrink_b(f2)
 
 
 def shrink_b(f: Failure) -> Failure:
-    """Greedy simplification towards the clean case while the same signature family persists."""
-    best = f
-    fam = f.sig.split(':')[0].split('@')[0]
+    """Greedy simplification towards the clean case while the same signature family persists (searched in-process,
+    the result is confirmed by subprocess runs; otherwise the original, already confirmed, failure is kept)."""
+    fam = _fam(f.sig)
 
-    def still(c: dict) -> T.Optional[Failure]:
-        try:
-            obs, info = run_b(c, sub_proc=True)
-        except Exception:
-            return None
+    def still(c: dict, sub_proc: bool = False) -> T.Optional[Failure]:
+        obs, info = run_b(c, sub_proc=sub_proc)
         g = judge_b(c, obs, info)
-        return g if g is not None and g.sig.split(':')[0].split('@')[0] == fam else None
+        return g if g is not None and _fam(g.sig) == fam else None
 
     cur = json.loads(json.dumps(f.case))
     cands: T.List[T.Callable[[dict], None]] = [
@@ -948,10 +967,13 @@ def shrink_b(f: Failure) -> Failure:
         mut(c2)
         if c2 == cur:
             continue
-        g = still(c2)
+        if still(c2) is not None:
+            cur = c2
+    if cur != f.case:
+        g = still(cur, sub_proc=True)
         if g is not None:
-            cur, best = c2, g
-    return best
+            return g
+    return f
 
 
 def _spec_url(primary: T.Optional[str], fallback: T.Optional[str], cache: T.Optional[str], h: str) -> dict:
@@ -1073,10 +1095,11 @@ def _shard_b(shard: T.List[dict], ev: Evidence, fails: T.List[Failure]) -> None:
     sigs: T.Set[str] = set()
     try:
         for case in shard:
-            f = check_b(case, ev)
-            if f is not None and f.sig not in sigs:
+            f = check_b(case, ev, sigs)
+            if f is not None:
                 sigs.add(f.sig)
-                fails.append(f)
+                if len({_fam(x.sig) for x in fails} | {_fam(f.sig)}) <= 6 and len(fails) < 12:
+                    fails.append(f)
     finally:
         _cleanup_proc()
 
@@ -1136,14 +1159,37 @@ def _chunks(items: T.List[T.Any], n: int) -> T.List[T.List[T.Any]]:
     return [items[i::n] for i in range(n)]
 
 
-PROBES: T.List[dict] = []   # dedicated deterministic probes for confirmed genuine defects (see reports/C10.md)
+# dedicated deterministic probes for confirmed genuine defects (see reports/C10.md); the class is excluded from the campaign
+PROBES: T.List[dict] = [
+    {'probe': 'exit0', 'fmt': 'tar.gz', 'scheme': 'file', 'nolead': False, 'buildfile': 'source', 'wm': 'default',
+     'source': {'mode': 'files', 'files': 'sG', 'hash': None}, 'patch': {'mode': 'files', 'files': 'pX', 'hash': None},
+     'diff': 'none', 'runs': ['setup']},
+]
+
+
+def probe_exit0(case: dict) -> T.Optional[Failure]:
+    """A required dependency() whose fallback cannot be prepared must make `meson setup` fail: [P] "with nothing suitable a
+    required lookup is an error".  Observed: ERROR printed, exit status 0."""
+    c = {k: v for k, v in case.items() if k != 'probe'}
+    obs, _info = run_b(c, sub_proc=True)
+    for o in obs:
+        if o['rc'] == 0 and not o['found'] and o['cmd'] == 'setup':
+            return Failure('required-lookup/exit-0-after-unhandled-OSError', case,
+                           'dependency(\'foo\') is required, its only provider is a wrap whose overlay archive (packagefiles, no hash) is not an '
+                           f'archive; meson prints an ERROR and stops configuring but exits with status {o["rc"]} (expected != 0: "with nothing '
+                           f'suitable a required lookup is an error"); snapshot {o["snap"]}\n{o["tail"][-600:]}')
+    return None
 
 
 def run(ctx: Ctx) -> None:
     rnd = random.Random(ctx.seed * 7919 + 17)
     table = table_a(ctx.ev)
     if ctx.quick:
-        cells = rnd.sample(table, min(len(table), ctx.n(1600, 0)))
+        # stratified: cells opening with a parent override are ~40% of the table but exercise one clause
+        ovr = [c for c in table if c['steps'][0][0] == 'ovr']
+        rest = [c for c in table if c['steps'][0][0] != 'ovr']
+        n = ctx.n(1600, 0)
+        cells = rnd.sample(ovr, min(len(ovr), n // 8)) + rnd.sample(rest, min(len(rest), n - n // 8))
     else:
         cells = table
     seqs = seq_cases(extended=not ctx.quick, ev=ctx.ev)
@@ -1152,7 +1198,7 @@ def run(ctx: Ctx) -> None:
     ctx.ev.extra['A_sequences_run'] = len(seqs)
     allA = cells + seqs
     rnd.shuffle(allA)
-    pmap(ctx, _shard_a, _chunks(allA, 64))
+    pmap(ctx, _shard_a, _chunks(allA, 32))
     sysb = systematic_b()
     nb = ctx.n(500, 9000)
     randb = [random_b(rnd) for _ in range(nb)]
@@ -1162,7 +1208,7 @@ def run(ctx: Ctx) -> None:
     ctx.ev.extra['B_random'] = len(randb)
     allB = sysb + randb
     rnd.shuffle(allB)
-    pmap(ctx, _shard_b, _chunks(allB, 64))
+    pmap(ctx, _shard_b, _chunks(allB, 32))
     for probe in PROBES:
         ctx.fail(replay(ctx, probe, {}))
     ctx.exhaustive = not ctx.quick
@@ -1174,6 +1220,8 @@ def run(ctx: Ctx) -> None:
 def replay(ctx: Ctx, case: T.Any, doc: dict) -> T.Optional[Failure]:
     _prep()
     try:
+        if case.get('probe') == 'exit0':
+            return probe_exit0(case)
         if 'cfg' in case:
             return judge_a(case, run_a(case, sub=True))
         obs, info = run_b(case, sub_proc=True)
